@@ -300,7 +300,9 @@ def drive_parallel(ctx, binary, scripts, nworkers, label, slot=120, nexts=None):
         tp = os.path.join(ctx.scratch, "%s.%d.trace" % (label, w))
         with open(sp, "w") as f:
             for j, (i, sc) in enumerate(ch):
-                rec = {"a": "reset", "bid": i}
+                # the random choices of the driver for this behaviour (header variants, malformed shapes) depend on the
+                # scenario only, so that a re-run of the scenario alone makes the same choices
+                rec = {"a": "reset", "bid": i, "rseed": int(vlib.digest(sc), 16) % 1000000007}
                 had_next = False
                 while sc and sc[0].get("a") in ("next", "procs"):      # leading pseudo events: counter position, GOMAXPROCS
                     rec[sc[0]["a"]] = sc[0]["v"]
@@ -431,13 +433,19 @@ def next_at(lines, ln):
 def confirm(ctx, binary, script, which, nxt=None):
     """Re-execute one scenario on the real code (with the identifier counter where it was); True if
     the same kind of failure shows again."""
-    lines, tp, st = run_one(ctx, binary, script, "confirm", nxt)
-    if which in ("panic", "hang"):
-        return any(("panic" in x) or x.get("a") == "hang" for x in lines), lines
-    if which == "KF_SendFailsLeak":
-        return any(x.get("a") == "end" and x.get("waiters") for x in lines), lines
-    v, _ = validate(ctx, tp, "P", timeout=300)
-    return v[0] == "property", lines
+    lines = []
+    for attempt in range(5):        # which arm of a select wins, which P runs a goroutine: a few attempts
+        lines, tp, st = run_one(ctx, binary, script, "confirm", nxt)
+        if which in ("panic", "hang"):
+            hit = any(("panic" in x) or x.get("a") == "hang" for x in lines)
+        elif which == "KF_SendFailsLeak":
+            hit = any(x.get("a") == "end" and x.get("waiters") for x in lines)
+        else:
+            v, _ = validate(ctx, tp, "P", timeout=300)
+            hit = v[0] == "property"
+        if hit:
+            return True, lines
+    return False, lines
 
 
 def run(ctx):
